@@ -23,4 +23,18 @@ def main():
     import c20
     c20.build_model()
     c20.build_model(baseline=True)
+    # wire family: extracted model, generator front end, the cover packages under the quick option sets, the evolution pair
+    import wire, wirerun, wiregen, c04
+    wirerun.model_bin()
+    sc, shapes = wiregen.build_cover(2)
+    res = wire.build_all(sc, wire.QUICK_OPTS)
+    for o, r in res.items():
+        if isinstance(r, Exception):
+            print("setup: cover package under option set %s does not build: %s" % (o, r))
+    s1, s2, _ = c04.build_pair()
+    for sx, lab in ((s1, "evo1"), (s2, "evo2")):
+        try:
+            wirerun.build_package(sx, 1, lab)
+        except Exception as e:
+            print("setup: evolution package %s does not build: %s" % (lab, e))
     print("setup done in %.0fs" % (time.time() - t0))
